@@ -237,7 +237,7 @@ func c08Run(r *core.Run) {
 	r.Parallel(func(w, nw int, l *core.Local) {
 		m := ref.NewMatcher()
 		for c := w; c < np*nj*n; c += nw {
-			if c%256 == 0 && r.Expired() {
+			if (c/nw)%16 == 0 && r.Expired() {
 				return
 			}
 			k := c % n
@@ -312,7 +312,7 @@ func c08Run(r *core.Run) {
 	r.Bounds["flame_methods"] = methods
 	r.Parallel(func(w, nw int, l *core.Local) {
 		for c := w; c < np*n; c += nw {
-			if c%64 == 0 && r.Expired() {
+			if (c/nw)%8 == 0 && r.Expired() {
 				return
 			}
 			k := c % n
